@@ -24,7 +24,9 @@ Salts   == {"orig", "other", "truncated", "empty", "invalid-b64", "std-alphabet"
 Digests == {"match", "other-pw", "truncated", "extended", "empty", "invalid-b64", "zeros", "swapped-with-salt",
             "std-alphabet", "nopad", "same-params-other-length"}   \* the last: the right password and salt, another tag length
 Shapes  == {"exact", "missing-digest", "missing-two", "extra-field", "no-newline", "crlf", "nul-before-newline",
-            "leading-blank-line", "second-line-valid", "huge-aux", "huge-time", "only-newline", "empty-file", "binary-junk"}
+            "leading-blank-line", "second-line-valid", "huge-aux", "huge-time", "only-newline", "empty-file", "binary-junk",
+            \* the five fields fill exactly 4096 / 65536 bytes (time stamp padded with zeros) and the line goes on behind them
+            "pad4096-extra-field", "pad4096-junk-tail", "pad65536-extra-field", "pad65536-junk-tail"}
 
 Good == [algo |-> "match", time |-> "dec", param |-> "known", salt |-> "orig", digest |-> "match", shape |-> "exact"]
 Cases == [algo : Algos, time : Times, param : Params, salt : Salts, digest : Digests, shape : Shapes]
@@ -35,7 +37,8 @@ vars == <<case>>
 
 \* ---------------------------------------------------------------- syntax
 LineGone(c)   == c.shape \in {"leading-blank-line", "second-line-valid", "only-newline", "empty-file", "binary-junk"}
-FieldsGone(c) == c.shape \in {"missing-digest", "missing-two", "extra-field"}
+FieldsGone(c) == c.shape \in {"missing-digest", "missing-two", "extra-field",
+                              "pad4096-extra-field", "pad4096-junk-tail", "pad65536-extra-field", "pad65536-junk-tail"}
 \* the format id names the algorithm of the parameter set the line refers to: either the set the digest was
 \* computed with, or - consistently - the other configured set (then the line is a well-formed record of that
 \* set, whose digest cannot match)
